@@ -120,6 +120,27 @@ func TestC18(t *testing.T) {
 			one("maxlimit", bs, ^uint64(0)-uint64(rng.Intn(20)), idx)
 		}
 	}
+	// sparse contents: byte strings of 7..20 bytes with no, one or two bits set in their last
+	// nine bytes (also with zero bytes at the end): word-at-a-time code paths see their edge cases
+	for ln := 7; ln <= 20; ln++ {
+		for bit := -1; bit < 72; bit++ {
+			for _, second := range []int{-1, 3, 70} {
+				if second >= 0 && (bit < 0 || ln%3 != 0) {
+					continue
+				}
+				bs := make([]byte, ln)
+				for _, b := range []int{bit, second} {
+					if b >= 0 {
+						pos := ln*8 - 72 + b
+						if pos >= 0 {
+							bs[pos>>3] |= 1 << uint(pos&7)
+						}
+					}
+				}
+				one("sparse", bs, uint64(ln*8), uint64(rng.Intn(ln*8)))
+			}
+		}
+	}
 	// covers
 	for k := 0; k < n/3; k++ {
 		ln := rng.Intn(6)
